@@ -376,3 +376,73 @@ def flushres_rule(ctx: Ctx, rid: str) -> None:
              and k.value.value is False for k in ast.walk(beh.node))
     r.check(ok, "IF.prediction", beh.loc(), "IF no longer predicts not-taken (branch_prediction=False)")
     r.floor(6)
+
+
+def fault_rule(ctx: Ctx, rid: str) -> None:
+    """Run-time failures are wrapped, broadly, with the failing instruction's address."""
+    m = ctx.model
+    r = ctx.rule(rid, "stage exceptions are wrapped into InstructionExecutionException(address, repr) of the failing stage's input")
+    step = m.method("Pipeline", "step", own=True)
+    tries = [n for n in walk_no_nested(step.node) if isinstance(n, ast.Try)]
+    dispatch = [c for c in calls_in(step.node) if isinstance(c.func, ast.Attribute) and c.func.attr == "behavior"]
+    if len(dispatch) < 3:
+        raise AnalysisError(f"{rid}: only {len(dispatch)} stage dispatch sites in Pipeline.step (3 confirmed by hand)")
+    for c in dispatch:
+        host = None
+        for t in tries:
+            if any(c is x for st in t.body for x in calls_in(st)):
+                host = t
+        key = f"Pipeline.step|dispatch@{_enclosing_test(step, c)}"
+        ok = host is not None
+        detail = None
+        if ok:
+            ok = False
+            for h in host.handlers:
+                tn = ast.unparse(h.type) if h.type is not None else "BaseException"
+                if tn in ("Exception", "BaseException"):
+                    raises = [n for n in ast.walk(h) if isinstance(n, ast.Raise) and isinstance(n.exc, ast.Call)
+                              and ast.unparse(n.exc.func) == "InstructionExecutionException"]
+                    for rz in raises:
+                        kw = {k.arg: " ".join(ast.unparse(k.value).split()) for k in rz.exc.keywords}
+                        ok = kw.get("address") == "self.pipeline_registers[index - 1].address_of_instruction" and \
+                            kw.get("instruction_repr") == "self.pipeline_registers[index - 1].instruction.__repr__()"
+                        detail = kw
+            # the handler must not be narrower than Exception
+        r.check(ok, key, step.loc(c), "a stage dispatch is not inside a try whose `except Exception` handler raises "
+                "InstructionExecutionException(address/instruction_repr of pipeline_registers[index - 1])", detail)
+    # the stalled-stage branches temporarily swap inputs: the failing input must be restored before reporting?  (not claimed)
+    ss = m.method("SingleStage", "behavior", own=True)
+    tries = [n for n in walk_no_nested(ss.node) if isinstance(n, ast.Try)]
+    ok = False
+    for t in tries:
+        names = [c.func.attr for st in t.body for c in calls_in(st) if isinstance(c.func, ast.Attribute)]
+        if "behavior" in names:
+            for h in t.handlers:
+                tn = ast.unparse(h.type) if h.type is not None else "BaseException"
+                if tn in ("Exception", "BaseException"):
+                    for rz in [n for n in ast.walk(h) if isinstance(n, ast.Raise) and isinstance(n.exc, ast.Call)
+                               and ast.unparse(n.exc.func) == "InstructionExecutionException"]:
+                        kw = {k.arg: " ".join(ast.unparse(k.value).split()) for k in rz.exc.keywords}
+                        ok = kw.get("address") == "result_pr.address_of_instruction" and \
+                            kw.get("instruction_repr") == "result_pr.instruction.__repr__()"
+    r.check(ok, "SingleStage.behavior|wrap", ss.loc(), "behavior()/memory_access() of the single stage are not wrapped by "
+            "`except Exception` into InstructionExecutionException(result_pr.address_of_instruction, repr)")
+    # result_pr.address_of_instruction is the fetch address
+    txt = " ".join(ast.unparse(ss.node).split())
+    r.check("result_pr.address_of_instruction = state.program_counter" in txt, "SingleStage.behavior|address", ss.loc(),
+            "the reported address is not the program counter at fetch")
+    # the exception type itself
+    ex = m.cls("InstructionExecutionException")
+    r.check({"address", "instruction_repr", "error_message"} <= set(ex.anns), "InstructionExecutionException|fields", ex.loc(),
+            "InstructionExecutionException lost one of address / instruction_repr / error_message")
+    r.floor(6)
+
+
+def _enclosing_test(f: FuncInfo, node: ast.AST) -> str:
+    best = "plain"
+    for n in ast.walk(f.node):
+        if isinstance(n, ast.If):
+            for blk, lab in ((n.body, "T"), (n.orelse, "F")):
+                if any(node is x for st in blk if not isinstance(st, ast.If) for x in ast.walk(st)):
+                    best = " ".join(ast.unparse(n.test).split())[:40] + ":" + lab
+    return best
